@@ -55,8 +55,7 @@ func verif_lemma_decodeName_measure(level int) {
 func verif_contract_DecodeQuestion(p DNS, index int, buffer []byte) (Question, int, error) {
 	vRequires(len(p) >= 12)
 	vCanary()
-	vModifiesHeap()
-	vModifiesBytes(buffer[:cap(buffer)]) // scratch space for the decoded name
+	vModifiesBytes(buffer[:cap(buffer)]) // scratch space for the decoded name (nothing else is written)
 	q, off, err := DecodeQuestion(p, index, buffer)
 	if err == nil {
 		vEnsures(index < off && off <= len(p))
@@ -75,8 +74,10 @@ func verif_frame_DNSEntry_decodeRRs_1(buffer []byte) []byte { return buffer[:cap
 func verif_contract_DNSEntry_decodeRRs(e *DNSEntry, count int, p DNS, offset int, buffer []byte) (int, bool, error) {
 	vRequires(e != nil && e.IP4Records != nil && e.IP6Records != nil && e.CNameRecords != nil && e.PTRRecords != nil)
 	vCanary()
-	vModifiesHeap()
-	vModifiesBytes(buffer[:cap(buffer)]) // scratch space for the decoded names
+	// writes: the record maps (no other heap object) and the scratch space for the decoded names
+	vModifiesMems("map:map[net/netip.Addr]github.com/irai/packet.IPResourceRecord/", "map:map[string]github.com/irai/packet.NameResourceRecord/", "map:map[string]github.com/irai/packet.IPResourceRecord/",
+		"elem:any/") // (and the argument lists of the fmt calls)
+	vModifiesBytes(buffer[:cap(buffer)])
 	n, updated, err := e.decodeRRs(count, p, offset, buffer)
 	if err == nil && count > 0 {
 		vEnsures(n <= len(p))
